@@ -269,6 +269,13 @@ def run_check(pid, tier="quick", seed=0, replay=None, out=sys.stdout):
     by_cid = {c["cid"]: c for c in cases}
     per_case = getattr(mod, "CASE_TIMEOUT", 120)
     shard_timeout = getattr(mod, "SHARD_TIMEOUT", {"quick": 900, "thorough": 3600}[tier])
+    if not replay:
+        shutil.rmtree(os.path.join(REPLAY_DIR, pid), ignore_errors=True)
+        for stale in ("last_%s_violations.json" % pid, "last_%s_inconclusive.json" % pid):
+            try:
+                os.remove(os.path.join(TMP_ROOT, stale))
+            except OSError:
+                pass
     results, problems = run_shards(pid, cases, getattr(mod, "MAX_SHARDS", 16), shard_timeout)
 
     extra = []
@@ -320,6 +327,20 @@ def run_check(pid, tier="quick", seed=0, replay=None, out=sys.stdout):
         print("   %s: %s" % (v["kind"], v["msg"][:400].replace("\n", " ")), file=out)
     if len(unlisted) > 20:
         print("   ... %d further violations not printed" % (len(unlisted) - 20), file=out)
+    if unlisted:
+        grp = collections.Counter()
+        for cid, v in unlisted:
+            m = v.get("mech", {})
+            grp[(v["kind"],) + tuple("%s=%s" % (k_, m[k_]) for k_ in sorted(m) if k_ not in ("frac",))] += 1
+        print("   violation groups (kind, mechanism): ", file=out)
+        for g, c_ in grp.most_common(40):
+            print("     %4d  %s" % (c_, " ".join(g)), file=out)
+        os.makedirs(TMP_ROOT, exist_ok=True)
+        with open(os.path.join(TMP_ROOT, "last_%s_violations.json" % pid), "w") as f:
+            json.dump([{"cid": cid, "v": v} for cid, v in unlisted], f, indent=1, default=str)
+    if inconcl:
+        with open(os.path.join(TMP_ROOT, "last_%s_inconclusive.json" % pid), "w") as f:
+            json.dump(inconcl, f, indent=1, default=str)
 
     missing_reach = [] if replay else reach_ok(getattr(mod, "REQUIRED_REACH", []), total_reach)
     min_nt = 1 if replay else getattr(mod, "MIN_NONTRIVIAL", 2)
